@@ -3660,6 +3660,16 @@ func (r *Resolver) processDelegation(ctx context.Context, rs *resolveState, resp
 		}
 	}
 
+	// The 12h delegation ceiling counts from the observation as well. SetUntil
+	// clamps only the stored delegation (and from the instant of the store);
+	// without this the deadline noted for the answer cache and descended into
+	// deeper delegations would be observedAt+TTL for a TTL above 12h, and what
+	// was learned through the delegation could be served after the delegation
+	// itself had lapsed (GHSA-mqfw-f48p-2vc8, answer-cache ghost).
+	if ceiling := observedAt.Add(authority.MaximumTTL); leaseDeadline.After(ceiling) {
+		leaseDeadline = ceiling
+	}
+
 	// Inherit the ancestor cut: a descendant delegation can never outlive
 	// the shallowest delegation on its path (Phoenix T2). This absolute
 	// deadline is stored verbatim (SetUntil), never reconstructed from a
